@@ -650,9 +650,12 @@ class _G:
             choices = [["in"], ["const", self.rng.randrange(8)]]
             pure_res = [r for r in res_pool if r[1]]
             if validated or closed_only:
-                # data rule: a validated argument is a function of inputs, constants and results of
-                # methods whose output does not depend on their own argument
+                # data rule: a validated argument must not depend on a data_in that is selected by caller runs;
+                # results of methods whose output ignores their argument are always fine, other results only
+                # if the method ends up with a single call site (`spec_data_ok` decides; resampled otherwise)
                 choices += [["res", r[0]] for r in pure_res]
+                if self.rng.random() < 0.4:
+                    choices += [["res", r[0]] for r in res_pool]
             else:
                 choices += [["res", r[0]] for r in res_pool]
                 if in_method:
@@ -691,7 +694,8 @@ def _body_stmts(g: _G, used: set, in_method: bool, n_calls: int, depth: int, own
 def spec_data_ok(spec: dict) -> bool:
     """the data rule, checked statically on a spec: the declared data flow between arguments, `data_in` and
     `data_out` (including `data_in m <- argument of every call of m`) has no cycle, and an argument that is
-    inspected by `validate_arguments` does not depend on any `data_in`."""
+    inspected by `validate_arguments` does not depend on any `data_in` whose argument multiplexer reads the
+    callers' runs (two or more call sites, or a custom combiner)."""
     alias = {p["alias"]: p["target"] for p in spec.get("provides", [])}
     io = dict((n, (d["iw"], d["ow"])) for n, d in spec.get("methods", {}).items())
     for lb in spec.get("libs", []):
@@ -707,6 +711,8 @@ def spec_data_ok(spec: dict) -> bool:
     site_target: dict = {}
     validated_args = []
     vset = set()
+    nsites: dict = {}  # resolved callee -> number of call sites
+    custom = set()  # methods with a custom combiner (it looks at `runs`)
 
     def add(x, y):
         edges.setdefault(x, set()).add(y)
@@ -716,9 +722,12 @@ def spec_data_ok(spec: dict) -> bool:
             k = s["k"]
             if k == "call":
                 site_target[s["sid"]] = res(s["ref"])
+                nsites[res(s["ref"])] = nsites.get(res(s["ref"]), 0) + 1
             elif k in ("trans", "method"):
                 if k == "method" and s.get("validate"):
                     vset.add(s["name"])
+                if k == "method" and s.get("nonexcl") and io[s["name"]][0] > 0:
+                    custom.add(s["name"])
                 collect_sites(s["body"])
             elif k == "if":
                 for a in s["alts"]:
@@ -786,8 +795,8 @@ def spec_data_ok(spec: dict) -> bool:
             if x in seen:
                 continue
             seen.add(x)
-            if x[0] == "in":
-                return False
+            if x[0] == "in" and (nsites.get(x[1], 0) >= 2 or x[1] in custom):
+                return False  # this data_in is selected by the callers' runs (manager.py:338-342)
             stack.extend(edges.get(x, ()))
     return True
 
@@ -796,11 +805,11 @@ def gen_positive(rng: random.Random, P: Optional[dict] = None) -> dict:
     """a design obeying the documented rule: readiness is local, or reads the run of a body that was
     declared `schedule_before` this one (directly) or that encloses it (nesting); the data flow obeys
     `spec_data_ok` (resampled otherwise)."""
-    for _ in range(20):
+    for _ in range(40):
         spec = _gen_positive(rng, P)
         if spec_data_ok(spec):
             return spec
-    raise RuntimeError("generator: no design with loop-free data flow in 20 tries")
+    raise RuntimeError("generator: no design with loop-free data flow in 40 tries")
 
 
 def _gen_positive(rng: random.Random, P: Optional[dict] = None) -> dict:
